@@ -98,8 +98,43 @@ def classify_cond(test, tol, num):
     return None
 
 
+def ret_names(fn):
+    """names of the elements of the (single) returned tuple"""
+    rets = [r for r in ast.walk(fn) if isinstance(r, ast.Return) and isinstance(r.value, ast.Tuple)]
+    if not rets or not all(isinstance(e, ast.Name) for e in rets[-1].value.elts):
+        raise AnalysisError(f"{fn.name}: the returned tuple of result lists was not recognised")
+    return [e.id for e in rets[-1].value.elts]
+
+
+def appended_var(fn, lst):
+    args = [c.args[0] for c in ast.walk(fn) if isinstance(c, ast.Call) and isinstance(c.func, ast.Attribute) and c.func.attr == "append"
+            and isinstance(c.func.value, ast.Name) and c.func.value.id == lst and c.args]
+    names = {a.id for a in args if isinstance(a, ast.Name)}
+    if len(names) != 1:
+        raise AnalysisError(f"{fn.name}: what is appended to `{lst}` is not a single local")
+    return names.pop()
+
+
+def attr_root(fn, e, depth=0):
+    """attribute name a value is read from, following locals and subscripts: closest_factor -> factors[k] -> <res>.factors -> 'factors'"""
+    if depth > 6 or e is None:
+        return None
+    if isinstance(e, ast.Subscript):
+        return attr_root(fn, e.value, depth + 1)
+    if isinstance(e, ast.Attribute):
+        return e.attr
+    if isinstance(e, ast.Name):
+        vals = [s2.value for s2 in ast.walk(fn) if isinstance(s2, ast.Assign) and len(s2.targets) == 1 and isinstance(s2.targets[0], ast.Name)
+                and s2.targets[0].id == e.id and not (isinstance(s2.value, ast.Constant) and s2.value.value is None)]
+        roots = {attr_root(fn, v, depth + 1) for v in vals}
+        return roots.pop() if len(roots) == 1 else None
+    return None
+
+
 def r16_1(rep, M, rid):
     fn = M.func(GM)
+    L_MATCH, L_SUB, L_VAC, L_COPY = (ret_names(fn) + [None] * 4)[:4]
+    V_MATCH, V_SUB = appended_var(fn, L_MATCH), appended_var(fn, L_SUB)
     loops = [s for s in fn.body if isinstance(s, ast.For)]
     if len(loops) != 1:
         raise AnalysisError("get_matches: the loop over the searched positions not found")
@@ -108,8 +143,8 @@ def r16_1(rep, M, rid):
     tv = [x.id for x in ast.walk(loop.target) if isinstance(x, ast.Name)]
     num = tv[-1]
     # truthiness of a variable that holds an atom index: index 0 is falsy
-    idx_vars = {norm(s2.targets[0]) for s2 in ast.walk(loop) if isinstance(s2, ast.Assign) and isinstance(s2.targets[0], ast.Name)
-                and not (isinstance(s2.value, ast.Constant)) and "index" in norm(s2.value)}
+    idx_vars = {V_MATCH} | {norm(s2.targets[0]) for s2 in ast.walk(loop) if isinstance(s2, ast.Assign) and isinstance(s2.targets[0], ast.Name)
+                            and not isinstance(s2.value, ast.Constant) and attr_root(fn, s2.value) in ("indices_original", "indices")}
     truthy = []
     for x in ast.walk(loop):
         operands = []
@@ -127,7 +162,7 @@ def r16_1(rep, M, rid):
         rep.violation(rid, f"get_matches: truthiness test of `{o.id}`", f"`{norm(x if not isinstance(x, ast.If) else x.test)[:60]}` tests an atom index for truth: index 0 is "
                       "falsy, so a position correctly matched to atom 0 is also reported as a vacancy and its cell offset is overwritten", M.where(GM, o))
         return
-    P = Paths({"match", "substitution"})
+    P = Paths({V_MATCH, V_SUB})
     assigned_in_body = {t.id for s2 in ast.walk(loop) if isinstance(s2, ast.Assign) for t in s2.targets if isinstance(t, ast.Name)}
     paths = P.run(list(loop.body), {v: "CARRIED" for v in assigned_in_body}, [], [])
     if P.carried:
@@ -156,10 +191,10 @@ def r16_1(rep, M, rid):
             if k == "other_species":
                 k, pol = "same_species", not pol
             kinds[k] = pol
-        m = [e for e in effects if e[0] == "append" and e[1] == "matches"]
-        s = [e for e in effects if e[0] == "append" and e[1] == "substitutions"]
-        v = [e for e in effects if e[0] == "append" and e[1] == "vacancies"]
-        ci = [e for e in effects if e[0] == "store" and e[1] == "copy_indices"]
+        m = [e for e in effects if e[0] == "append" and e[1] == L_MATCH]
+        s = [e for e in effects if e[0] == "append" and e[1] == L_SUB]
+        v = [e for e in effects if e[0] == "append" and e[1] == L_VAC]
+        ci = [e for e in effects if e[0] == "store" and e[1] == L_COPY]
         desc = ", ".join(f"{k}={p}" for k, p in sorted(kinds.items()))
         if len(m) != 1 or len(s) != 1:
             rep.violation(rid, f"get_matches path [{desc}]", "does not append exactly one entry to matches and to substitutions", M.where(GM, loop))
@@ -180,7 +215,7 @@ def r16_1(rep, M, rid):
         elif want == "vacancy" and not ("floor" in (src or "") and "to_scaled" in (src or "")):
             rep.violation(rid, f"get_matches path [{desc}] copy index", f"vacancy copy index comes from `{src}`, required floor of the scaled position",
                           M.where(GM, loop))
-        elif want != "vacancy" and "factor" not in (src or ""):
+        elif want != "vacancy" and attr_root(fn, ast.parse(src, mode="eval").body if src else None) != "factors":
             rep.violation(rid, f"get_matches path [{desc}] copy index", f"copy index comes from `{src}`, required the cell offset of the found image",
                           M.where(GM, loop))
         else:
@@ -188,22 +223,27 @@ def r16_1(rep, M, rid):
     # nearest image: argmin over the distances of the same query result
     for fq in (GM, GMS):
         fn2 = M.func(fq)
-        env = {}
-        for s in ast.walk(fn2):
-            if isinstance(s, ast.Assign) and isinstance(s.targets[0], ast.Name):
-                env.setdefault(s.targets[0].id, norm(s.value))
-        ok = ("argmin(distances)" in env.get("min_distance_index", "") and env.get("distances", "").endswith("cell_list_result.distances")
-              and env.get("closest_distance") == "distances[min_distance_index]" and env.get("closest_index") == "indices[min_distance_index]"
-              and env.get("indices", "").endswith("cell_list_result.indices_original"))
-        if ok:
+        am = [s2 for s2 in ast.walk(fn2) if isinstance(s2, ast.Assign) and isinstance(s2.targets[0], ast.Name) and isinstance(s2.value, ast.Call)
+              and (M.ext_name(fq, s2.value.func) or "") == "numpy.argmin" and s2.value.args]
+        if len(am) != 1:
+            rep.violation(rid, f"{fq.split('.')[-1]}: nearest image selection", "no single np.argmin over the distances of the query result", M.where(fq))
+            continue
+        k = am[0].targets[0].id
+        over = attr_root(fn2, am[0].value.args[0])
+        picks = {}
+        for s2 in ast.walk(fn2):
+            if isinstance(s2, ast.Assign) and isinstance(s2.targets[0], ast.Name) and isinstance(s2.value, ast.Subscript) and norm(s2.value.slice) == k:
+                picks[attr_root(fn2, s2.value.value)] = s2.targets[0].id
+        if over == "distances" and "distances" in picks and "indices_original" in picks:
             rep.ok(rid, f"{fq.split('.')[-1]}: the candidate is the nearest image of the query result (argmin over its distances), original index reported")
         else:
-            rep.violation(rid, f"{fq.split('.')[-1]}: nearest image selection", f"min index `{env.get('min_distance_index')}`, closest distance "
-                          f"`{env.get('closest_distance')}`, closest index `{env.get('closest_index')}` from `{env.get('indices')}`", M.where(fq))
-    if "closest_factor" in ast.unparse(fn) and "factors[min_distance_index]" in ast.unparse(fn).replace(" ", "").replace("cell_list_result.", ""):
-        rep.ok(rid, "get_matches: the reported cell offset is that of the nearest image")
-    else:
-        rep.violation(rid, "get_matches: cell offset", "the offset is not read at the index of the nearest image", M.where(GM))
+            rep.violation(rid, f"{fq.split('.')[-1]}: nearest image selection", f"argmin is taken over `.{over}` of the query result and the values read at that index are "
+                          f"{sorted(str(x) for x in picks)}; required: argmin over .distances, closest distance and .indices_original read at it", M.where(fq))
+        if fq == GM:
+            if "factors" in picks:
+                rep.ok(rid, "get_matches: the reported cell offset is that of the nearest image")
+            else:
+                rep.violation(rid, "get_matches: cell offset", "the offset is not read at the index of the nearest image", M.where(GM))
     # content of a reported substitution: which species was searched, which was found
     ps = M.params(GM)
     p_system, p_numbers = ps[0], ps[3]
@@ -272,11 +312,18 @@ def r16_1(rep, M, rid):
 def guards_of_match(M, fq):
     fn = M.func(fq)
     fl = Flow(fn)
-    st = [s for s in ast.walk(fn) if isinstance(s, ast.Assign) and norm(s.targets[0]) == "match" and not isinstance(s.value, ast.Constant)]
+    mv = appended_var(fn, ret_names(fn)[0])
+    st = [s for s in ast.walk(fn) if isinstance(s, ast.Assign) and norm(s.targets[0]) == mv and not isinstance(s.value, ast.Constant)]
     if len(st) != 1:
-        raise AnalysisError(f"{fq.split('.')[-1]}: the assignment `match = closest_index` not found")
+        raise AnalysisError(f"{fq.split('.')[-1]}: the assignment of the matched index not found")
     conds = fl.cfg.branch_conditions(fl.node_of(st[0]))
-    return sorted((norm(t.test), pol) for t, pol in conds if isinstance(t, ast.If)), norm(st[0].value)
+    # compare the guards by kind, not by the spelling of their locals
+    tol = M.params(fq)[4]
+    loop = next(lp for lp in fn.body if isinstance(lp, ast.For))
+    num = [x.id for x in ast.walk(loop.target) if isinstance(x, ast.Name)][-1]
+    kinds = sorted(((classify_cond(t.test, tol, num) or norm(t.test)) + (":" + type(t.test.ops[0]).__name__ if isinstance(t.test, ast.Compare) else ""), pol)
+                   for t, pol in conds if isinstance(t, ast.If))
+    return kinds, attr_root(fn, st[0].value)
 
 
 def r16_2(rep, M, rid):
@@ -289,7 +336,14 @@ def r16_2(rep, M, rid):
     # the simple variant wraps the query positions with the system's own cell and pbc
     fn = M.func(GMS)
     w = [c for c in ast.walk(fn) if isinstance(c, ast.Call) and M.ext_name(GMS, c.func) in ("ase.geometry.wrap_positions", "ase.geometry.geometry.wrap_positions")]
-    if w and [norm(a) for a in w[0].args] == ["positions", "cell", "pbc"]:
+    sysp = M.params(GMS)[0]
+
+    def getter_of(e):
+        if isinstance(e, ast.Name):
+            vals = [s2.value for s2 in ast.walk(fn) if isinstance(s2, ast.Assign) and norm(s2.targets[0]) == e.id]
+            e = vals[0] if len(vals) == 1 else e
+        return e.func.attr if isinstance(e, ast.Call) and isinstance(e.func, ast.Attribute) and norm(e.func.value) == sysp else None
+    if w and len(w[0].args) >= 3 and norm(w[0].args[0]) == M.params(GMS)[2] and getter_of(w[0].args[1]) == "get_cell" and getter_of(w[0].args[2]) == "get_pbc":
         rep.ok(rid, "get_matches_simple wraps the queries with the system's cell and pbc")
     else:
         rep.violation(rid, "get_matches_simple: wrapping", "query positions are not wrapped with the system's own cell and pbc", M.where(GMS))
